@@ -106,27 +106,36 @@ func runC03(c *rt.Ctx) {
 	// (1) every ordered pair of command kinds on one shared key, two connections
 	for _, lock := range []string{"single", "multi"} {
 		for _, proto := range []string{"binary", "text"} {
-			cfg := Cfg{Orca: "l1l2b", Lock: lock, Proto: proto, L1H: "std", Conc: 0}
-			ops0 := concOps(proto == "binary", "a", "b", "0")
-			ops1 := concOps(proto == "binary", "a", "b", "1")
-			for _, ni := range initStates("a") {
-				iname, init := ni.Name, ni.Ops
-				for _, p0 := range []int{0, 1} {
-					for _, p1 := range []int{0, 1} {
-						for _, o0 := range ops0 {
-							for _, o1 := range ops1 {
-								item++
-								if !c.Mine(item) {
-									continue
+			// 16 stripes: the two ports must map the one key to the one stripe whatever the hash is
+			cfg := Cfg{Orca: "l1l2b", Lock: lock, Proto: proto, L1H: "std", Conc: 4}
+			for ki, key := range []string{"a", "key0", "k-long-key-name-17"} {
+				if ki > 0 && proto == "text" {
+					continue
+				}
+				ops0 := concOps(proto == "binary", key, "b", "0")
+				ops1 := concOps(proto == "binary", key, "b", "1")
+				for _, ni := range initStates(key) {
+					iname, init := ni.Name, ni.Ops
+					if ki > 0 && iname != "both" && !c.Thorough() {
+						continue
+					}
+					for _, p0 := range []int{0, 1} {
+						for _, p1 := range []int{0, 1} {
+							for _, o0 := range ops0 {
+								for _, o1 := range ops1 {
+									item++
+									if !c.Mine(item) {
+										continue
+									}
+									if c.Expired() {
+										return
+									}
+									if proto == "text" && !c.Thorough() && (p0 != 0 || p1 != 1 || iname != "both") {
+										continue
+									}
+									sc := ConcScenario{Harness: "C03", Cfg: cfg, Init: init, Threads: []ConcThread{{Port: p0, Ops: []wire.Op{o0}}, {Port: p1, Ops: []wire.Op{o1}}}}
+									explore(sc, -1)
 								}
-								if c.Expired() {
-									return
-								}
-								if proto == "text" && !c.Thorough() && (p0 != 0 || p1 != 1 || iname != "both") {
-									continue
-								}
-								sc := ConcScenario{Harness: "C03", Cfg: cfg, Init: init, Threads: []ConcThread{{Port: p0, Ops: []wire.Op{o0}}, {Port: p1, Ops: []wire.Op{o1}}}}
-								explore(sc, -1)
 							}
 						}
 					}
